@@ -1,11 +1,13 @@
 import NanoVerif.Model.DriverMain
 import NanoVerif.Driver.Objective
+import NanoVerif.Driver.Reduce
 /-! line-protocol driver of C09 (must not import Mathlib, directly or indirectly) -/
 open NanoVerif
 
 def handle (fam : String) (rest : List String) : Option String :=
   match fam with
   | "objective" => Driver.Objective.handle rest
+  | "reduce" => Driver.Reduce.handle rest   -- `reduce sum`: sum_reduce of reduce.h on explicit schedules (model: Model/Reduce.lean)
   | _ => none
 
 def main : IO Unit := DriverMain.run handle
